@@ -215,12 +215,23 @@ func solveOne(o *Obligation, dir string, quickSec, raceSec int) {
 	}
 	// last resort against machine load: a few obligations per run get one long, unshared attempt
 	if atomic.AddInt32(&longRetries, 1) <= 3 {
-		rr := runSolver(context.Background(), solvers[0], file, raceSec*3)
-		if rr.verdict == "unsat" {
-			o.Status, o.Solver, o.Millis = "discharged", rr.solver+"/long", total+rr.millis
-			return
+		// both z3-new modes (E-matching only / default): each is the faster one on some of the large VCs
+		lctx, lcancel := context.WithCancel(context.Background())
+		lch := make(chan solveResult, 2)
+		for _, s := range solvers[:2] {
+			s := s
+			go func() { lch <- runSolver(lctx, s, file, raceSec*3) }()
 		}
-		outs = append(outs, "long retry: "+firstLine(rr.output))
+		for i := 0; i < 2; i++ {
+			rr := <-lch
+			if rr.verdict == "unsat" {
+				lcancel()
+				o.Status, o.Solver, o.Millis = "discharged", rr.solver+"/long", total+rr.millis
+				return
+			}
+			outs = append(outs, "long retry "+rr.solver+": "+firstLine(rr.output))
+		}
+		lcancel()
 	}
 	o.Status = "failed"
 	o.Solver = "none"
